@@ -19,11 +19,24 @@ RULE = ("random component graphs made of 1-4 disconnected parts with determinist
         "hash seeds, equals the reference evaluator's values/reports, every body ran exactly as often as "
         "in the serial run, and get_subgraphs yields a partition closed under edges. Non-trivial: >= 2 "
         "sub-graphs and >= 2 distinct linear extensions tried, or a fault whose dependents span >= 2 "
-        "topological levels.")
+        "topological levels. Sub-check providers: 1-4 specs built with the real spec_factory factories "
+        "(simple_file text/raw, glob_file, first_file, simple_command +/- keep_rc) over a sandbox directory whose "
+        "files are healthy, empty, missing, a directory, or vanish right after the datasource evaluated (so the "
+        "datasource succeeds and the lazy load of the shared ContentProvider fails), under 1-2 private archive- "
+        "or host-like contexts, each spec read by 1-4 generated readers (Parser, StreamParser, component / "
+        "combiner / condition / datasource functions reading .content and .rc, spec_factory.find; through the "
+        "registry point or the implementation; some catching the read error into their value; gated on other "
+        "specs) with 0-2 combiners on top; evaluated by dr.run, 3-4 linear extensions incl. index and reverse "
+        "index order, run_incremental, run_all, run_all on a pool. Oracle: every schedule ends with the same "
+        "values, failures (class+message per component), missing reports and body call counts as dr.run. "
+        "Non-trivial there: some provider has >= 2 readers that were evaluated in >= 2 different relative orders.")
 ASSUMPTIONS = [
     "thread interleavings inside the pool are sampled, not enumerated (bodies are deterministic, "
     "sub-graphs disjoint; the harness owns which linear extension and which partition is used)",
     "exec_times and log output are not part of the compared state; no HostContext in pooled runs",
+    "providers: the file system of the sandbox is put back before every schedule; a vanishing file is removed by a "
+    "broker observer right after its datasource evaluated (the outside world, not a component); host-like contexts "
+    "are private HostContext subclasses (no SIGALRM timeout, default deny lists, no filters)",
 ]
 
 
@@ -425,6 +438,474 @@ def strat_override(tier):
     return override_cases(tier)
 
 
+# ---- real spec_factory providers shared by several readers ---------------------------------------
+#
+# What a spec hands to its consumers is one *lazy* ContentProvider object: the datasource only creates
+# it, the first consumer that reads it loads the file / runs the command, every later consumer gets what
+# the object remembered (content, return code, or the failure).  Which consumer is "the first" is a pure
+# scheduling matter, so whatever the object carries from one reader to the next is observable through
+# the final state.  The synthetic bodies of the `schedules` sub-check return plain values and never
+# exercise that; this sub-check puts the real factories under generated readers.
+
+EXCLUDED = [
+    "providers: a spec_factory.find() reader of a provider that has >= 2 readers and a faulty file (directory, "
+    "vanished, missing, empty). find() reads `d.content if d.loaded else d.stream()`, and the two ways disagree: "
+    "simple_file('etc/x') with etc/x a directory, read by a Parser A and find(spec, 'x'): [.., A, find] records "
+    "find=[IsADirectoryError] (and a second failure on the registry point), [.., find, A] records "
+    "find=[ContentException]; with an empty etc/x under a host context [.., A, find] records "
+    "find=[ContentException('Empty (after filtering) ..')], [.., find, A] nothing. Genuine order dependence of "
+    "the tree, known finding C04-find-mode-switch (pinned in REGRESSIONS); such a reader is generated as a plain "
+    "component reading .content; label excluded:find-sharing-a-faulty-provider.",
+    "providers: a StreamParser sharing a simple_command provider whose command exits non-zero with >= 1 other "
+    "reader. stream() of a command ignores the exit status and runs the which()-resolved argv[0], .content "
+    "raises CalledProcessError / runs the bare name, and what a .content reader left behind replaces the "
+    "stream: simple_command('cat <root>/etc/nothing'), Parser P + StreamParser S: [.., P, S] records "
+    "S=[ContentException], [.., S, P] gives S the value ['/usr/bin/cat: ..: No such file or directory'] and no "
+    "failure; with keep_rc=True S's lines start with 'cat:' or with '/usr/bin/cat:' depending on the order. "
+    "Genuine order dependence of the tree, known finding C04-command-stream-vs-content (pinned in REGRESSIONS); "
+    "such a reader is generated as a Parser; label excluded:stream-reader-sharing-a-failing-command.",
+]
+
+_pv_counter = __import__("itertools").count()
+
+PV_FACTORIES = ["simple_file", "simple_file", "simple_file", "raw_file", "glob_file", "glob_file", "first_file",
+                "simple_command", "simple_command"]
+PV_KINDS = ["parser", "parser", "parser", "stream", "component", "combiner", "condition", "datasource", "find"]
+PV_HARD = ("dir", "vanish", "missing")      # the provider cannot be created or its load raises
+
+
+def factory_is_cmd(sp):
+    return sp["factory"] == "simple_command"
+
+
+def _pv_multi(sp):
+    return sp["factory"] == "glob_file"
+
+
+@st.composite
+def provider_cases(draw, tier="quick"):
+    big = tier != "quick"
+    nctx = draw(st.sampled_from([1, 2]))
+    ctx_kinds = [draw(st.sampled_from(["archive", "archive", "host"])) for _ in range(nctx)]
+    word = st.text(alphabet="abcxyz 019=", min_size=0, max_size=8)
+    specs = []
+    for s in range(draw(st.integers(nctx, 4 if big else 3))):
+        factory = draw(st.sampled_from(PV_FACTORIES))
+        nfiles = draw(st.integers(2, 3)) if factory in ("glob_file", "first_file") else 1
+        # roughly every second spec gets a fault in one of its files
+        faulty = draw(st.integers(0, nfiles * 2 - 1))
+        files = []
+        for f in range(nfiles):
+            if f == faulty:
+                opts = ["dir", "vanish", "vanish", "empty", "missing"]
+                if factory == "glob_file":
+                    opts = ["vanish", "vanish", "empty", "missing"]     # glob_file leaves directories out itself
+                fault = draw(st.sampled_from(opts))
+            else:
+                fault = "ok"
+            files.append({"lines": draw(st.lists(word, min_size=1, max_size=4)), "fault": fault})
+        # every context carries a spec (two contexts = at least two sub-graphs unless a reader joins them)
+        specs.append({"ctx": s if s < nctx else draw(st.integers(0, nctx - 1)), "factory": factory, "files": files,
+                      "point": draw(st.integers(0, 3)) > 0,
+                      "keep_rc": factory == "simple_command" and draw(st.integers(0, 4)) == 0})
+    # half of the two-context cases keep the contexts' specs apart (several sub-graphs for run_all / the pool)
+    apart = nctx == 2 and draw(st.booleans())
+    consumers = []
+    for s, sp in enumerate(specs):
+        nread = draw(st.sampled_from([1, 2, 2, 3, 3, 4]))
+        hard = any(f["fault"] in PV_HARD for f in sp["files"])
+        empty = any(f["fault"] == "empty" for f in sp["files"])
+        for _ in range(nread):
+            kind = draw(st.sampled_from(PV_KINDS))
+            if kind in ("stream", "find") and sp["factory"] == "raw_file":
+                kind = "parser"          # raw providers have no stream(); find() refuses raw specs
+            was = None
+            if kind == "find" and nread >= 2 and (hard or empty):
+                kind, was = "component", "find"       # EXCLUDED: known finding C04-find-mode-switch
+            if kind == "stream" and nread >= 2 and hard and factory_is_cmd(sp):
+                kind, was = "parser", "stream"        # EXCLUDED: known finding C04-command-stream-vs-content
+            gate = []
+            others = [o for o in range(len(specs)) if o != s and (not apart or specs[o]["ctx"] == sp["ctx"])]
+            if others and draw(st.integers(0, 3)) == 0:
+                gate = [[draw(st.sampled_from(["req", "opt"])), draw(st.sampled_from(others))]]
+            consumers.append({"kind": kind, "spec": s, "via": draw(st.sampled_from(["point", "point", "point", "impl"])),
+                              "catch": draw(st.integers(0, 4)) == 0, "coe": draw(st.booleans()), "gate": gate,
+                              "pattern": draw(st.sampled_from(["a", "x", "0", " ", "="])), "was": was})
+    # the order in which readers were declared carries no meaning: shuffle, so that index order does not
+    # group the readers of one spec
+    consumers = draw(st.permutations(consumers))
+    tops = []
+    for _ in range(draw(st.integers(0, 2))):
+        pool = list(range(len(consumers)))
+        if apart:
+            side = draw(st.integers(0, nctx - 1))
+            pool = [i for i in pool if specs[consumers[i]["spec"]]["ctx"] == side]
+        ids = draw(st.lists(st.sampled_from(pool), min_size=1, max_size=3, unique=True))
+        k = draw(st.integers(0, len(ids)))
+        tops.append({"kind": draw(st.sampled_from(["combiner", "condition"])), "req": ids[:k], "opt": ids[k:]})
+    n = nctx + 2 * len(specs) + len(consumers) + len(tops)
+    return {"ctx_kinds": ctx_kinds, "specs": specs, "consumers": list(consumers), "tops": tops,
+            "store_skips": draw(st.booleans()),
+            "prios": draw(st.lists(st.lists(st.integers(0, 40), min_size=n, max_size=n), min_size=1, max_size=2)),
+            "pools": sorted(draw(st.sets(st.sampled_from([1, 2, 4]), min_size=1, max_size=1)))}
+
+
+def _pv_path(s, f):
+    return "etc/s%d_f%d.conf" % (s, f)
+
+
+def _pv_populate(case, root, again=False):
+    """Creates the sandbox; again=True only puts back what a schedule may have removed, so that every
+    schedule starts from the same file system."""
+    etc = os.path.join(root, "etc")
+    if not again:
+        os.makedirs(etc)
+    for s, sp in enumerate(case["specs"]):
+        for f, fl in enumerate(sp["files"]):
+            path = os.path.join(root, _pv_path(s, f))
+            if fl["fault"] == "missing" or (again and fl["fault"] != "vanish"):
+                continue
+            if fl["fault"] == "dir":
+                os.makedirs(path)
+                continue
+            with open(path, "w") as fh:
+                if fl["fault"] != "empty":
+                    fh.write("".join(l + "\n" for l in fl["lines"]))
+
+
+def _pv_plain(v):
+    if isinstance(v, bytes):
+        return ["bytes", v.decode("latin-1")]
+    if isinstance(v, str):
+        return v
+    return [_pv_plain(x) for x in v]
+
+
+def _pv_build(case, uid, root, log, w):
+    import types
+    from insights.core import Parser, StreamParser
+    from insights.core.context import ExecutionContext, HostContext
+    from insights.core.plugins import combiner, component, condition, datasource, parser
+    from insights.core import spec_factory as sf
+
+    modname = "vp_c04_prov_%d" % uid
+    mod = types.ModuleType(modname)
+    sys.modules[modname] = mod
+    w.update({"modname": modname, "ctxs": [], "comps": [], "label": {}, "impls": [], "consumers": [], "tops": [],
+              "vanish": {}})
+
+    def reg(c, label):
+        w["comps"].append(c)
+        w["label"][c] = label
+        return c
+
+    for i, kind in enumerate(case["ctx_kinds"]):
+        c = type("PCtx%d_%d" % (uid, i), (HostContext if kind == "host" else ExecutionContext,), {"__module__": modname})
+        setattr(mod, c.__name__, c)
+        w["ctxs"].append(c)
+        w["label"][c] = "ctx%d" % i
+
+    rdict = {"__module__": modname}
+    idict = {"__module__": modname}
+    points = []
+    for s, sp in enumerate(case["specs"]):
+        ctx = w["ctxs"][sp["ctx"]]
+        fac = sp["factory"]
+        if fac == "simple_file":
+            impl = sf.simple_file(_pv_path(s, 0), context=ctx)
+        elif fac == "raw_file":
+            impl = sf.simple_file(_pv_path(s, 0), context=ctx, kind=sf.RawFileProvider)
+        elif fac == "glob_file":
+            impl = sf.glob_file("etc/s%d_f*.conf" % s, context=ctx)
+        elif fac == "first_file":
+            impl = sf.first_file([_pv_path(s, f) for f in range(len(sp["files"]))], context=ctx)
+        else:
+            impl = sf.simple_command("cat %s" % os.path.join(root, _pv_path(s, 0)), context=ctx, keep_rc=sp["keep_rc"])
+        reg(impl, "impl%d" % s)
+        w["impls"].append(impl)
+        gone = [os.path.join(root, _pv_path(s, f)) for f, fl in enumerate(sp["files"]) if fl["fault"] == "vanish"]
+        if gone:
+            w["vanish"][impl] = gone
+        if sp["point"]:
+            pt = sf.RegistryPoint(multi_output=_pv_multi(sp), raw=fac == "raw_file")
+            rdict["sp%d_%d" % (uid, s)] = pt
+            idict["sp%d_%d" % (uid, s)] = impl
+            reg(pt, "spec%d" % s)
+            points.append(pt)
+        else:
+            idict["free%d_%d" % (uid, s)] = impl
+            points.append(None)
+    registry = type("PReg%d" % uid, (sf.SpecSet,), rdict)
+    setattr(mod, registry.__name__, registry)
+    impls_cls = type("PImpl%d" % uid, (registry,), idict)
+    setattr(mod, impls_cls.__name__, impls_cls)
+
+    def dep_of(s, via):
+        return points[s] if (via == "point" and points[s] is not None) else w["impls"][s]
+
+    def failed(e):
+        return ["failed", type(e).__name__, str(e).replace(root, "<root>")]
+
+    for ci, c in enumerate(case["consumers"]):
+        name = "c%d" % ci
+        dep = dep_of(c["spec"], c["via"])
+        req = [dep_of(g[1], "point") for g in c["gate"] if g[0] == "req"]
+        opt = [dep_of(g[1], "point") for g in c["gate"] if g[0] == "opt"]
+        kw = {"optional": opt} if opt else {}
+        kind = c["kind"]
+        if kind in ("parser", "stream"):
+            base = StreamParser if kind == "stream" else Parser
+
+            def parse_content(self, content, name=name):
+                log.append(["call", name])
+                self.v = ["v", name, _pv_plain(content)]
+            body = {"__module__": modname, "parse_content": parse_content}
+            cls = type("C%d_%d" % (uid, ci), (base,), body)
+            if c["catch"]:
+                # a parser that copes with unreadable content itself (what it saw ends up in its value)
+                def _handle_content(self, context, cls=cls, name=name):
+                    try:
+                        super(cls, self)._handle_content(context)
+                    except Exception as e:     # noqa
+                        self.v = ["v", name, failed(e)]
+                cls._handle_content = _handle_content
+            setattr(mod, cls.__name__, cls)
+            if _pv_multi(case["specs"][c["spec"]]):
+                kw["continue_on_error"] = c["coe"]
+            comp = parser(dep, *req, **kw)(cls)
+        elif kind == "find":
+            comp = sf.find(dep, c["pattern"])
+        else:
+            def body(*args, name=name, catch=c["catch"], dep=dep, kind=kind):
+                log.append(["call", name])
+                p = args[0][dep] if kind == "datasource" else args[0]
+
+                def read(x):
+                    try:
+                        return [_pv_plain(x.content), x.rc]
+                    except Exception as e:     # noqa
+                        if not catch:
+                            raise
+                        return failed(e)
+                return ["v", name, [read(x) for x in p] if isinstance(p, list) else read(p)]
+            body.__name__ = body.__qualname__ = "c%d_%d" % (uid, ci)
+            body.__module__ = modname
+            setattr(mod, body.__name__, body)
+            deco = {"component": component, "combiner": combiner, "condition": condition, "datasource": datasource}[kind]
+            comp = deco(dep, *req, **kw)(body)
+        reg(comp, name)
+        w["consumers"].append(comp)
+
+    for ti, t in enumerate(case["tops"]):
+        name = "t%d" % ti
+
+        def tbody(*args, name=name):
+            log.append(["call", name])
+            return ["t", name, [_pv_norm(a) for a in args]]
+        tbody.__name__ = tbody.__qualname__ = "t%d_%d" % (uid, ti)
+        tbody.__module__ = modname
+        setattr(mod, tbody.__name__, tbody)
+        deco = combiner if t["kind"] == "combiner" else condition
+        kw = {"optional": [w["consumers"][i] for i in t["opt"]]} if t["opt"] else {}
+        comp = deco(*[w["consumers"][i] for i in t["req"]], **kw)(tbody)
+        reg(comp, name)
+        w["tops"].append(comp)
+
+
+def _pv_norm(v):
+    from insights.core import Parser
+    from insights.core.context import ExecutionContext
+    from insights.core.spec_factory import ContentProvider
+    if v is None or isinstance(v, (bool, int, str)):
+        return v
+    if isinstance(v, bytes):
+        return _pv_plain(v)
+    if isinstance(v, ContentProvider):
+        return ["provider", type(v).__name__, v.relative_path]
+    if isinstance(v, ExecutionContext):
+        return "ctx"
+    if isinstance(v, Parser):
+        return getattr(v, "v", ["parser-without-value"])
+    if isinstance(v, dict):
+        return dict((str(k), _pv_norm(x)) for k, x in sorted(v.items()))
+    if isinstance(v, (list, tuple)):
+        return [_pv_norm(x) for x in v]
+    return repr(v)
+
+
+def _pv_cleanup(w):
+    from insights.core import filters
+    from vp.props import c05
+    for c in w["comps"]:
+        filters._CACHE.pop(c, None)
+        filters.FILTERS.pop(c, None)
+    c05._cleanup(w["comps"], w["ctxs"], w["modname"])
+
+
+def check_providers(case):
+    """Real spec_factory providers (lazy file / command content) read by several generated consumers:
+    whichever reader the schedule runs first, every component ends with the same value, the same recorded
+    failures (class and message) and the same missing-dependency report, and every body ran as often as
+    in the single pass."""
+    import shutil
+    import tempfile
+    from concurrent.futures import ThreadPoolExecutor
+    from insights.core import dr
+    from insights.core.plugins import datasource
+    uid = next(_pv_counter)
+    log = []
+    root = tempfile.mkdtemp(prefix="vp_c04_")
+    w = {"modname": "vp_c04_prov_%d" % uid, "ctxs": [], "comps": []}
+    try:
+        _pv_populate(case, root)
+        _pv_build(case, uid, root, log, w)
+        label = w["label"]
+        graph = {}
+        for c in w["consumers"] + w["tops"]:
+            graph.update(dr.get_dependency_graph(c))
+        for c in graph:
+            if c not in label:
+                raise Violation("the dependency graph of the generated readers contains a foreign component %r" % (c,))
+        comps = list(w["ctxs"]) + w["comps"]
+        comps = [c for c in comps if c in graph]
+        idx = dict((c, k) for k, c in enumerate(comps))
+
+        def fresh_graph():
+            return dict((k, set(v)) for k, v in graph.items())
+
+        def vanish(comp, broker):
+            # the outside world: a file the spec pointed at is gone by the time somebody reads it
+            if comp in broker:
+                for path in w["vanish"].get(comp, ()):
+                    try:
+                        os.remove(path)
+                    except OSError:
+                        pass
+
+        def fresh():
+            del log[:]
+            _pv_populate(case, root, again=True)
+            br = dr.Broker()
+            br.store_skips = bool(case["store_skips"])
+            for c in w["ctxs"]:
+                br[c] = c(root=root)
+            if w["vanish"]:
+                br.add_observer(vanish, datasource)
+            return br
+
+        def state(brokers):
+            vals, excs, miss = {}, {}, {}
+            seen = set()
+            for br in brokers:
+                if id(br) in seen:
+                    continue
+                seen.add(id(br))
+                for c, v in br.instances.items():
+                    if c not in label:
+                        raise Violation("value stored for a component outside the graph: %r" % (c,))
+                    vals[label[c]] = _pv_norm(v)
+                for c, lst in br.exceptions.items():
+                    if not lst:
+                        continue
+                    if c not in label:
+                        raise Violation("a failure is recorded for a component outside the graph: %r" % (c,))
+                    excs.setdefault(label[c], []).extend([type(e).__name__, str(e).replace(root, "<root>")] for e in lst)
+                for c, m in br.missing_requirements.items():
+                    if c not in label:
+                        raise Violation("missing dependencies are reported for a component outside the graph: %r" % (c,))
+                    miss[label[c]] = [sorted(label.get(x, repr(x)) for x in m[0]),
+                                      sorted(sorted(label.get(x, repr(x)) for x in g) for g in m[1])]
+            calls = {}
+            for ev in log:
+                calls[ev[1]] = calls.get(ev[1], 0) + 1
+            return {"values": vals, "failures": dict((k, sorted(v)) for k, v in excs.items()), "missing": miss,
+                    "calls": calls}
+
+        def kahn(prio):
+            remaining = set(comps)
+            out = []
+            while remaining:
+                ready = [c for c in remaining if not (set(graph[c]) & remaining)]
+                ready.sort(key=lambda c: (prio[idx[c] % len(prio)], idx[c]))
+                out.append(ready[0])
+                remaining.discard(ready[0])
+            return out
+
+        results = []
+        br = fresh()
+        dr.run(fresh_graph(), broker=br)
+        results.append(("run", state([br])))
+        orders = []
+        n = len(comps)
+        for k, prio in enumerate(case["prios"] + [list(range(n)), list(range(n, 0, -1))]):
+            order = kahn(prio)
+            orders.append(order)
+            br = fresh()
+            dr.run_components(order, fresh_graph(), br)
+            results.append(("linear-extension-%d" % k, state([br])))
+        br = fresh()
+        got = list(dr.run_incremental(fresh_graph(), broker=br))
+        results.append(("incremental", state(got or [br])))
+        br = fresh()
+        got = dr.run_all(fresh_graph(), broker=br)
+        results.append(("run_all", state(got or [br])))
+        for npool in case["pools"]:
+            br = fresh()
+            with ThreadPoolExecutor(npool) as pool:
+                got = dr.run_all(fresh_graph(), broker=br, pool=pool)
+            results.append(("pool-%d" % npool, state(got or [br])))
+
+        base_label, base = results[0]
+        for lab, st_ in results[1:]:
+            if st_ != base:
+                parts = [k for k in ("values", "failures", "missing", "calls") if st_[k] != base[k]]
+                names = sorted(set(x for k in parts for x in set(st_[k]) | set(base[k]) if st_[k].get(x) != base[k].get(x)))
+                raise Violation("schedule %s ends in a different state than %s (%s differ at %s): %r vs %r" % (
+                    lab, base_label, "/".join(parts), ", ".join(names),
+                    dict((k, dict((x, st_[k].get(x)) for x in names if x in st_[k])) for k in parts),
+                    dict((k, dict((x, base[k].get(x)) for x in names if x in base[k])) for k in parts)))
+
+        # what the case exercised
+        labels = set()
+        flipped_failing = False
+        flipped = False
+        for s, sp in enumerate(case["specs"]):
+            readers = [w["consumers"][ci] for ci, c in enumerate(case["consumers"]) if c["spec"] == s]
+            seqs = set(tuple(idx[c] for c in order if c in readers) for order in orders)
+            loadfail = any(f["fault"] in ("dir", "vanish") for f in sp["files"]) or (
+                sp["factory"] == "simple_command" and sp["files"][0]["fault"] == "missing")
+            labels.add("factory=" + sp["factory"])
+            labels.update("fault=" + f["fault"] for f in sp["files"])
+            if len(readers) >= 2 and len(seqs) >= 2:
+                flipped = True
+                labels.add("shared-provider-readers-reordered")
+                if loadfail and not sp["keep_rc"]:
+                    flipped_failing = True
+                    labels.add("failing-load-readers-reordered")
+        labels.update("reader=" + c["kind"] + ("+catch" if c["catch"] else "") for c in case["consumers"])
+        labels.update("ctx=" + k for k in case["ctx_kinds"])
+        for c in case["consumers"]:
+            if c.get("was") == "find":
+                labels.add("excluded:find-sharing-a-faulty-provider")
+            if c.get("was") == "stream":
+                labels.add("excluded:stream-reader-sharing-a-failing-command")
+        labels.add("subgraphs=%d" % len(list(dr.get_subgraphs(fresh_graph()))))
+        if any(base["failures"].get(label[c]) for c in w["consumers"]):
+            labels.add("reader-failure-recorded")
+        if base["missing"]:
+            labels.add("missing-reported")
+        if flipped:
+            labels.add("nontrivial")
+        return {"nontrivial": flipped, "labels": sorted(labels)}
+    finally:
+        _pv_cleanup(w)
+        shutil.rmtree(root, ignore_errors=True)
+
+
+def strat_providers(tier):
+    return provider_cases(tier)
+
+
 def strat(tier):
     return cases(tier)
 
@@ -440,14 +921,63 @@ def strat_hs(tier):
 
 
 SUBS = [
-    Sub("override", check_override, strategy=strat_override, quick=1200, thorough=6000, workers_quick=3),
-    Sub("schedules", check, strategy=strat, quick=1000, thorough=5000, workers_quick=4),
+    Sub("providers", check_providers, strategy=strat_providers, quick=110, thorough=2500, workers_quick=3),
+    Sub("override", check_override, strategy=strat_override, quick=1100, thorough=6000, workers_quick=3),
+    Sub("schedules", check, strategy=strat, quick=950, thorough=5000, workers_quick=4),
     Sub("hashseeds", check_hashseeds, strategy=strat_hs, quick=6, thorough=12, workers_quick=2, workers_thorough=4,
         budget_quick=90, budget_thorough=900),
 ]
 
 _N = {"multi": 0, "efaults": ["ok"], "coe": True, "decl": [], "fault": "ok"}
+
+
+def _R(kind, spec=0, **kw):
+    return dict({"kind": kind, "spec": spec, "via": "point", "catch": False, "coe": True, "gate": [], "pattern": "a"}, **kw)
+
+
 REGRESSIONS = [
+    # finding C04-stream-reader-error-order (fixed, be19ac3): the first streaming reader of a provider whose load
+    # fails got a ContentException, every later one (and a streaming reader that came after a .content
+    # reader) the raw error - who recorded what, and how many failures the registry point collected,
+    # depended on the evaluation order
+    Reg("stream-and-content-readers-of-a-failing-load", "providers", {
+        "ctx_kinds": ["archive"], "store_skips": False, "pools": [2], "tops": [],
+        "specs": [{"ctx": 0, "factory": "simple_file", "point": True, "keep_rc": False,
+                   "files": [{"lines": ["a"], "fault": "dir"}]}],
+        "consumers": [_R("parser"), _R("stream")], "prios": [[0, 0, 0, 1, 0]]}),
+    Reg("two-stream-readers-of-a-vanished-file", "providers", {
+        "ctx_kinds": ["host"], "store_skips": True, "pools": [1], "tops": [{"kind": "combiner", "req": [], "opt": [0, 1]}],
+        "specs": [{"ctx": 0, "factory": "first_file", "point": True, "keep_rc": False,
+                   "files": [{"lines": ["a"], "fault": "vanish"}, {"lines": ["b"], "fault": "ok"}]}],
+        "consumers": [_R("stream"), _R("stream", via="impl")], "prios": [[0, 0, 0, 0, 0, 0]]}),
+    # pinned known finding C04-find-mode-switch (class kept out of generation): find() reads .content or stream()
+    # depending on whether somebody loaded the provider before
+    Reg("find-and-parser-on-a-directory", "providers", {
+        "ctx_kinds": ["archive"], "store_skips": False, "pools": [2], "tops": [],
+        "specs": [{"ctx": 0, "factory": "simple_file", "point": True, "keep_rc": False,
+                   "files": [{"lines": ["a"], "fault": "dir"}]}],
+        "consumers": [_R("parser"), _R("find")], "prios": [[0, 0, 0, 1, 0]]},
+        expect="known", finding="C04-find-mode-switch"),
+    Reg("find-and-parser-on-an-empty-file-host", "providers", {
+        "ctx_kinds": ["host"], "store_skips": False, "pools": [2], "tops": [],
+        "specs": [{"ctx": 0, "factory": "simple_file", "point": True, "keep_rc": False,
+                   "files": [{"lines": ["a"], "fault": "empty"}]}],
+        "consumers": [_R("parser"), _R("find")], "prios": [[0, 0, 0, 1, 0]]},
+        expect="known", finding="C04-find-mode-switch"),
+    # pinned known finding C04-command-stream-vs-content (class kept out of generation): stream() of a command
+    # ignores the exit status and spells argv[0] differently than .content
+    Reg("stream-and-parser-on-a-failing-command", "providers", {
+        "ctx_kinds": ["archive"], "store_skips": False, "pools": [2], "tops": [],
+        "specs": [{"ctx": 0, "factory": "simple_command", "point": True, "keep_rc": False,
+                   "files": [{"lines": ["a"], "fault": "missing"}]}],
+        "consumers": [_R("parser"), _R("stream")], "prios": [[0, 0, 0, 1, 0]]},
+        expect="known", finding="C04-command-stream-vs-content"),
+    Reg("stream-and-parser-on-a-failing-command-keep-rc", "providers", {
+        "ctx_kinds": ["archive"], "store_skips": False, "pools": [2], "tops": [],
+        "specs": [{"ctx": 0, "factory": "simple_command", "point": True, "keep_rc": True,
+                   "files": [{"lines": ["a"], "fault": "missing"}]}],
+        "consumers": [_R("parser"), _R("stream")], "prios": [[0, 0, 0, 1, 0]]},
+        expect="known", finding="C04-command-stream-vs-content"),
     # finding C04-sac-keyerror (fixed): a pre-populated component that is a dependency of another
     # pre-populated one made dr.run raise KeyError for some dict orders under a serialized-archive broker
     Reg("serialized-archive-nested-seeds", "schedules", {
